@@ -195,12 +195,26 @@ pub fn op_threads(case: &J) -> J {
   let seed = case.get("seed").and_then(|v| v.as_u64()).unwrap_or(1);
   let rendezvous = case.get("rendezvous").and_then(|v| v.as_u64()).unwrap_or(0) as usize;
   st.gate_timeout_ms.store(case.get("gate_timeout_ms").and_then(|v| v.as_u64()).unwrap_or(20_000), Ordering::Relaxed);
-  // ---- sequential pass: expected values ----
+  // ---- expected values: every call made ALONE, on an evaluator built for that call only (an evaluator that has
+  // served other calls before may already carry their traces); then the same calls in sequence on the shared evaluators ----
   st.mode.store(MODE_OFF, Ordering::SeqCst);
+  let model_texts: Vec<String> = case.get("models").and_then(|v| v.as_array()).unwrap_or(&empty).iter().map(|m| m.as_str().unwrap_or("").to_string()).collect();
   let mut expected: Vec<String> = vec![];
+  let mut sequential_differs: Vec<J> = vec![];
   for c in &calls {
-    let v = evaluators[c.model].evaluate_invocable(&c.invocable, &tagged(&c.input, "sequential"));
+    let alone = match dmntk_model::parse(&model_texts[c.model]).ok().and_then(|d| ModelEvaluator::new(&d).ok()) {
+      Some(e) => e,
+      None => return json!({"harness_error": "model does not build a second time"}),
+    };
+    let v = alone.evaluate_invocable(&c.invocable, &tagged(&c.input, "alone"));
     expected.push(vj::from_value(&v).to_string());
+  }
+  for (k, c) in calls.iter().enumerate() {
+    let v = evaluators[c.model].evaluate_invocable(&c.invocable, &tagged(&c.input, "sequential"));
+    let got = vj::from_value(&v).to_string();
+    if got != expected[k] && sequential_differs.len() < 3 {
+      sequential_differs.push(json!({"phase": "sequential", "index": k, "invocable": c.invocable, "expected": expected[k], "observed": got}));
+    }
   }
   let non_null = expected.iter().filter(|e| e.as_str() != "null").count();
   let calls = Arc::new(calls);
@@ -414,6 +428,7 @@ pub fn op_threads(case: &J) -> J {
     "expected_non_null": non_null,
     "mismatches": mismatches,
     "mismatch_count": events.iter().filter(|e| !e.4).count() as u64 + hammer_mismatch_count,
+    "sequential_differs": sequential_differs,
     "hammer_calls": hammer_total,
     "hammer_targets": hammer_targets,
     "thread_panics": thread_panics,
